@@ -43,6 +43,8 @@ static const char *g_label = "-";
 static FILE *g_log = NULL;
 
 static MPI_Comm g_hc = MPI_COMM_NULL;
+/* a coverage build (tools/coverage.py) must not lose the counters of the runs that stop early */
+extern void __gcov_dump(void) __attribute__((weak));
 
 static void sync_point(void)
 {
@@ -55,6 +57,7 @@ static void sync_point(void)
         fprintf(g_log, "STOP %d\nDONE\n", g_seq);
         fflush(g_log);
         PMPI_Barrier(g_hc);
+        if (__gcov_dump) __gcov_dump();
         _exit(0);
     }
 }
@@ -167,12 +170,284 @@ static int create(const char *path, int *ncid, MPI_Info info)
     return rc;
 }
 
+/* ---- second family of programs: every way into ncmpio_read_write ----------------------------
+ * pack / no pack of the memory buffer (xbuf != buf), read / write, MPI_File_{read,write}_at (independent
+ * mode or 1 process) / _at_all (collective, >= 2 processes); flexible API with derived memory types
+ * (vector, indexed, resized) with and without type conversion and byte swap; waits over several
+ * requests whose buffers are not adjacent; intra-node aggregation. */
+static signed char g_cb[512], g_crb[512];
+static int g_ib[512], g_irb[512];
+static float g_fb[512], g_frb[512];
+
+static void def_schema2(int ncid, int *bv, int *iv)
+{
+    int rc, dy, dx, dims[2];
+    A("def_dim", ncmpi_def_dim(ncid, "y", 4 * g_nprocs, &dy));
+    A("def_dim", ncmpi_def_dim(ncid, "x", NX, &dx));
+    dims[0] = dy; dims[1] = dx;
+    A("def_var", ncmpi_def_var(ncid, "bv", NC_BYTE, 2, dims, bv));
+    A("def_var", ncmpi_def_var(ncid, "iv", NC_INT, 2, dims, iv));
+    (void)rc;
+}
+
+/* memory layouts holding 4*NX = 32 elements of type `elt` */
+static MPI_Datatype mk_type(int kind, MPI_Datatype elt, MPI_Offset *bufcount)
+{
+    MPI_Datatype t = MPI_DATATYPE_NULL;
+    if (kind == 0) {                               /* vector: every second element */
+        MPI_Type_vector(4 * NX, 1, 2, elt, &t); *bufcount = 1;
+    } else if (kind == 1) {                        /* indexed: three blocks with gaps */
+        int bl[3] = {8, 8, 16}, disp[3] = {0, 12, 30};
+        MPI_Type_indexed(3, bl, disp, elt, &t); *bufcount = 1;
+    } else {                                       /* resized element, extent twice its size */
+        MPI_Aint lb, ext;
+        MPI_Type_get_extent(elt, &lb, &ext);
+        MPI_Type_create_resized(elt, 0, 2 * ext, &t); *bufcount = 4 * NX;
+    }
+    MPI_Type_commit(&t);
+    return t;
+}
+
+static void flex_pair(int ncid, int coll, int var, const char *vname, int kind, const char *kname,
+                      MPI_Datatype elt, void *wbuf, void *rbuf)
+{
+    int rc;
+    char lp[64], lg[64];
+    MPI_Offset start[2], count[2], bc;
+    MPI_Datatype t = mk_type(kind, elt, &bc);
+    slab(start, count);
+    snprintf(lp, sizeof lp, "put_flex%s_%s_%s", coll ? "_all" : "", kname, vname);
+    snprintf(lg, sizeof lg, "get_flex%s_%s_%s", coll ? "_all" : "", kname, vname);
+    /* the label strings must outlive the call (g_label is read by the signal handlers) */
+    if (coll) {
+        A(strdup(lp), ncmpi_put_vara_all(ncid, var, start, count, wbuf, bc, t));
+        A(strdup(lg), ncmpi_get_vara_all(ncid, var, start, count, rbuf, bc, t));
+    } else {
+        A(strdup(lp), ncmpi_put_vara(ncid, var, start, count, wbuf, bc, t));
+        A(strdup(lg), ncmpi_get_vara(ncid, var, start, count, rbuf, bc, t));
+    }
+    MPI_Type_free(&t);
+}
+
+static void flex_all(int ncid, int coll, int bv, int iv)
+{
+    /* NC_BYTE <- signed char: no conversion, no byte swap: the derived type reaches ncmpio_read_write */
+    flex_pair(ncid, coll, bv, "byte", 0, "vec", MPI_SIGNED_CHAR, g_cb, g_crb);
+    flex_pair(ncid, coll, bv, "byte", 1, "idx", MPI_SIGNED_CHAR, g_cb, g_crb);
+    flex_pair(ncid, coll, bv, "byte", 2, "rsz", MPI_SIGNED_CHAR, g_cb, g_crb);
+    /* NC_INT <- int: byte swap on this machine */
+    flex_pair(ncid, coll, iv, "int", 0, "vec", MPI_INT, g_ib, g_irb);
+    flex_pair(ncid, coll, iv, "int", 1, "idx", MPI_INT, g_ib, g_irb);
+    /* NC_INT <- float, NC_BYTE <- int: type conversion */
+    flex_pair(ncid, coll, iv, "int_from_float", 0, "vec", MPI_FLOAT, g_fb, g_frb);
+    flex_pair(ncid, coll, bv, "byte_from_int", 2, "rsz", MPI_INT, g_ib, g_irb);
+}
+
+static void multi_wait(int ncid, int coll, int bv, int iv)
+{
+    int rc, reqs[4];
+    MPI_Offset s1[2], c1[2], s2[2], c2[2];
+    const char *w = coll ? "wait_all" : "wait";
+    char lab[64];
+    /* two halves of this rank's rows, from / into buffers that are NOT adjacent in memory */
+    slab(s1, c1); c1[0] = 2;
+    slab(s2, c2); s2[0] += 2; c2[0] = 2;
+    A("iput_byte", ncmpi_iput_vara_schar(ncid, bv, s1, c1, g_cb, &reqs[0]));
+    A("iput_byte", ncmpi_iput_vara_schar(ncid, bv, s2, c2, g_cb + 200, &reqs[1]));
+    snprintf(lab, sizeof lab, "%s_2puts_byte", w); api_wait(strdup(lab), ncid, 2, reqs, coll);
+    A("iput_int", ncmpi_iput_vara_int(ncid, iv, s1, c1, g_ib, &reqs[0]));
+    A("iput_int", ncmpi_iput_vara_int(ncid, iv, s2, c2, g_ib + 200, &reqs[1]));
+    snprintf(lab, sizeof lab, "%s_2puts_int", w); api_wait(strdup(lab), ncid, 2, reqs, coll);
+    A("iget_byte", ncmpi_iget_vara_schar(ncid, bv, s1, c1, g_crb, &reqs[0]));
+    A("iget_byte", ncmpi_iget_vara_schar(ncid, bv, s2, c2, g_crb + 200, &reqs[1]));
+    snprintf(lab, sizeof lab, "%s_2gets_byte", w); api_wait(strdup(lab), ncid, 2, reqs, coll);
+    A("iget_int", ncmpi_iget_vara_int(ncid, iv, s1, c1, g_irb, &reqs[0]));
+    A("iget_int", ncmpi_iget_vara_int(ncid, iv, s2, c2, g_irb + 200, &reqs[1]));
+    snprintf(lab, sizeof lab, "%s_2gets_int", w); api_wait(strdup(lab), ncid, 2, reqs, coll);
+    /* puts and gets in one wait: write phase, then read phase */
+    A("iput_byte", ncmpi_iput_vara_schar(ncid, bv, s1, c1, g_cb, &reqs[0]));
+    A("iput_byte", ncmpi_iput_vara_schar(ncid, bv, s2, c2, g_cb + 200, &reqs[1]));
+    A("iget_int", ncmpi_iget_vara_int(ncid, iv, s1, c1, g_irb, &reqs[2]));
+    A("iget_int", ncmpi_iget_vara_int(ncid, iv, s2, c2, g_irb + 200, &reqs[3]));
+    snprintf(lab, sizeof lab, "%s_mixed_2puts_2gets", coll ? "wait_all" : "wait"); api_wait(strdup(lab), ncid, 4, reqs, coll);
+    /* buffered puts */
+    A("buffer_attach", ncmpi_buffer_attach(ncid, 4096));
+    A("bput_byte", ncmpi_bput_vara_schar(ncid, bv, s1, c1, g_cb, &reqs[0]));
+    A("bput_int", ncmpi_bput_vara_int(ncid, iv, s2, c2, g_ib + 200, &reqs[1]));
+    snprintf(lab, sizeof lab, "%s_2bputs", w); api_wait(strdup(lab), ncid, 2, reqs, coll);
+    A("buffer_detach", ncmpi_buffer_detach(ncid));
+}
+
+static int scenario2(const char *name, const char *path)
+{
+    int rc, ncid, bv, iv, i;
+    MPI_Offset start[2], count[2];
+    MPI_Info info = MPI_INFO_NULL;
+    int ina = (strstr(name, "_ina") != NULL);
+    for (i = 0; i < 512; i++) { g_cb[i] = (signed char)(i % 100); g_ib[i] = (i % 90) + g_rank; g_fb[i] = (float)(i % 50); }
+    if (strncmp(name, "flex_", 5) && strncmp(name, "multi_", 6)) return 0;
+    if (ina) {                      /* intra-node aggregation: one aggregator for the 2+ ranks of this node */
+        MPI_Info_create(&info);
+        MPI_Info_set(info, "nc_num_aggrs_per_node", "1");
+    }
+    create(path, &ncid, info); def_schema2(ncid, &bv, &iv);
+    A("enddef", ncmpi_enddef(ncid));
+    if (!strcmp(name, "flex_indep")) {
+        A("begin_indep", ncmpi_begin_indep_data(ncid));
+        flex_all(ncid, 0, bv, iv);
+        A("end_indep", ncmpi_end_indep_data(ncid));
+    }
+    else if (!strcmp(name, "flex_coll") || !strcmp(name, "flex_coll_ina")) {
+        slab(start, count);
+        A("put_vara_all_byte", ncmpi_put_vara_schar_all(ncid, bv, start, count, g_cb));
+        A("put_vara_all_int", ncmpi_put_vara_int_all(ncid, iv, start, count, g_ib));
+        flex_all(ncid, 1, bv, iv);
+    }
+    else if (!strcmp(name, "multi_indep")) {
+        A("begin_indep", ncmpi_begin_indep_data(ncid));
+        multi_wait(ncid, 0, bv, iv);
+        A("end_indep", ncmpi_end_indep_data(ncid));
+    }
+    else if (!strcmp(name, "multi_coll") || !strcmp(name, "multi_coll_ina")) {
+        multi_wait(ncid, 1, bv, iv);
+    }
+    else {
+        fprintf(g_log, "BAD-SCENARIO %s\n", name);
+    }
+    A("close", ncmpi_close(ncid));
+    if (info != MPI_INFO_NULL) MPI_Info_free(&info);
+    return 1;
+}
+
+/* ---- third family: the remaining driver entry points that reach an I/O site -------------------
+ * vard, varn, interleaved requests in one wait, ncmpi__enddef, copy_att in data mode, abort. */
+static int scenario3(const char *name, const char *path)
+{
+    int rc, ncid, fix, recv, sca, i, reqs[4];
+    MPI_Offset start[2], count[2];
+    MPI_Info info = MPI_INFO_NULL;
+    if (strncmp(name, "x_", 2)) return 0;
+    for (i = 0; i < 4 * NX * 4; i++) g_buf[i] = 1000 * g_rank + i;
+    if (strstr(name, "_ina")) {
+        MPI_Info_create(&info);
+        MPI_Info_set(info, "nc_num_aggrs_per_node", "1");
+    }
+    if (!strcmp(name, "x_enddef2")) {
+        /* the ncmpi__enddef entry point: first enddef (fill mode), then a redef that moves data */
+        char big[3000];
+        memset(big, 'z', sizeof big);
+        create(path, &ncid, info); def_schema(ncid, &fix, &recv, &sca, 1);
+        A("_enddef", ncmpi__enddef(ncid, 0, 4, 0, 4));
+        slab(start, count);
+        A("put_vara_all", ncmpi_put_vara_int_all(ncid, fix, start, count, g_buf));
+        recslab(start, count, 0, 2);
+        A("put_vara_all_rec", ncmpi_put_vara_int_all(ncid, recv, start, count, g_buf));
+        A("redef", ncmpi_redef(ncid));
+        A("put_att", ncmpi_put_att_text(ncid, NC_GLOBAL, "big", 3000, big));
+        A("_enddef_move", ncmpi__enddef(ncid, 0, 4, 0, 4));
+        A("close", ncmpi_close(ncid));
+        return 1;
+    }
+    if (!strcmp(name, "x_copy_att")) {
+        int ncid2, f2, r2, s2;
+        char path2[1024];
+        snprintf(path2, sizeof path2, "%s.b", path);
+        create(path, &ncid, info); def_schema(ncid, &fix, &recv, &sca, 0);
+        A("enddef", ncmpi_enddef(ncid));
+        A("create", ncmpi_create(MPI_COMM_WORLD, path2, NC_CLOBBER | NC_64BIT_DATA, info, &ncid2));
+        def_schema(ncid2, &f2, &r2, &s2, 0);
+        A("enddef", ncmpi_enddef(ncid2));
+        A("copy_att_data", ncmpi_copy_att(ncid, NC_GLOBAL, "title", ncid2, NC_GLOBAL));
+        A("copy_att_data_var", ncmpi_copy_att(ncid, fix, "units", ncid2, f2));
+        A("close", ncmpi_close(ncid2));
+        A("close", ncmpi_close(ncid));
+        if (g_rank == 0) unlink(path2);
+        return 1;
+    }
+    create(path, &ncid, info); def_schema(ncid, &fix, &recv, &sca, 0);
+    A("enddef", ncmpi_enddef(ncid));
+    if (!strcmp(name, "x_vard") || !strcmp(name, "x_vard_indep")) {
+        int coll = !strcmp(name, "x_vard");
+        int sizes[2], subs[2], sts[2];
+        MPI_Datatype ft, fr;
+        sizes[0] = 4 * g_nprocs; sizes[1] = NX; subs[0] = 4; subs[1] = NX; sts[0] = 4 * g_rank; sts[1] = 0;
+        MPI_Type_create_subarray(2, sizes, subs, sts, MPI_ORDER_C, MPI_INT, &ft); MPI_Type_commit(&ft);
+        sizes[0] = 2; sizes[1] = NX; subs[0] = 2; subs[1] = NX / g_nprocs; sts[0] = 0; sts[1] = (NX / g_nprocs) * g_rank;
+        MPI_Type_create_subarray(2, sizes, subs, sts, MPI_ORDER_C, MPI_INT, &fr); MPI_Type_commit(&fr);
+        if (coll) {
+            A("put_vard_all", ncmpi_put_vard_all(ncid, fix, ft, g_buf, 4 * NX, MPI_INT));
+            A("put_vard_all_rec", ncmpi_put_vard_all(ncid, recv, fr, g_buf, 2 * (NX / g_nprocs), MPI_INT));
+            A("get_vard_all", ncmpi_get_vard_all(ncid, fix, ft, g_rbuf, 4 * NX, MPI_INT));
+            A("get_vard_all_rec", ncmpi_get_vard_all(ncid, recv, fr, g_rbuf, 2 * (NX / g_nprocs), MPI_INT));
+        } else {
+            A("begin_indep", ncmpi_begin_indep_data(ncid));
+            A("put_vard", ncmpi_put_vard(ncid, fix, ft, g_buf, 4 * NX, MPI_INT));
+            A("put_vard_rec", ncmpi_put_vard(ncid, recv, fr, g_buf, 2 * (NX / g_nprocs), MPI_INT));
+            A("get_vard", ncmpi_get_vard(ncid, fix, ft, g_rbuf, 4 * NX, MPI_INT));
+            A("end_indep", ncmpi_end_indep_data(ncid));
+        }
+        MPI_Type_free(&ft); MPI_Type_free(&fr);
+    }
+    else if (!strcmp(name, "x_varn") || !strcmp(name, "x_varn_indep") || !strcmp(name, "x_varn_ina")) {
+        int coll = strcmp(name, "x_varn_indep") != 0;
+        MPI_Offset s0[2], s1[2], c0[2], c1[2], *starts[2], *counts[2];
+        starts[0] = s0; starts[1] = s1; counts[0] = c0; counts[1] = c1;
+        /* two separate pieces of this rank's rows of the fixed-size variable */
+        s0[0] = 4 * g_rank; s0[1] = 0; c0[0] = 1; c0[1] = NX;
+        s1[0] = 4 * g_rank + 2; s1[1] = 0; c1[0] = 2; c1[1] = NX;
+        if (!coll) A("begin_indep", ncmpi_begin_indep_data(ncid));
+        if (coll) A("put_varn_all", ncmpi_put_varn_int_all(ncid, fix, 2, starts, counts, g_buf));
+        else      A("put_varn", ncmpi_put_varn_int(ncid, fix, 2, starts, counts, g_buf));
+        if (coll) A("get_varn_all", ncmpi_get_varn_int_all(ncid, fix, 2, starts, counts, g_rbuf));
+        else      A("get_varn", ncmpi_get_varn_int(ncid, fix, 2, starts, counts, g_rbuf));
+        /* record variable: two records, this rank's share of x (numrecs grows) */
+        s0[0] = 0; s0[1] = (NX / g_nprocs) * g_rank; c0[0] = 1; c0[1] = NX / g_nprocs;
+        s1[0] = 2; s1[1] = (NX / g_nprocs) * g_rank; c1[0] = 1; c1[1] = NX / g_nprocs;
+        if (coll) A("put_varn_all_rec", ncmpi_put_varn_int_all(ncid, recv, 2, starts, counts, g_buf));
+        else      A("put_varn_rec", ncmpi_put_varn_int(ncid, recv, 2, starts, counts, g_buf));
+        if (!coll) A("end_indep", ncmpi_end_indep_data(ncid));
+    }
+    else if (!strcmp(name, "x_interleaved") || !strcmp(name, "x_interleaved_indep")) {
+        int coll = !strcmp(name, "x_interleaved");
+        MPI_Offset stride[2];
+        /* two requests whose file regions interleave: even and odd columns of the same rows */
+        if (!coll) A("begin_indep", ncmpi_begin_indep_data(ncid));
+        slab(start, count); count[1] = NX / 2; stride[0] = 1; stride[1] = 2;
+        A("iput_vars_even", ncmpi_iput_vars_int(ncid, fix, start, count, stride, g_buf, &reqs[0]));
+        start[1] = 1;
+        A("iput_vars_odd", ncmpi_iput_vars_int(ncid, fix, start, count, stride, g_buf + 64, &reqs[1]));
+        api_wait(coll ? "wait_all_interleaved_puts" : "wait_interleaved_puts", ncid, 2, reqs, coll);
+        start[1] = 0;
+        A("iget_vars_even", ncmpi_iget_vars_int(ncid, fix, start, count, stride, g_rbuf, &reqs[0]));
+        start[1] = 1;
+        A("iget_vars_odd", ncmpi_iget_vars_int(ncid, fix, start, count, stride, g_rbuf + 64, &reqs[1]));
+        api_wait(coll ? "wait_all_interleaved_gets" : "wait_interleaved_gets", ncid, 2, reqs, coll);
+        if (!coll) A("end_indep", ncmpi_end_indep_data(ncid));
+    }
+    else if (!strcmp(name, "x_abort")) {
+        A("begin_indep", ncmpi_begin_indep_data(ncid));
+        recslab(start, count, 0, 2);
+        A("put_vara_rec", ncmpi_put_vara_int(ncid, recv, start, count, g_buf));
+        A("abort", ncmpi_abort(ncid));                   /* data mode: like close; leaves independent mode first */
+        if (info != MPI_INFO_NULL) MPI_Info_free(&info);
+        return 1;
+    }
+    else {
+        fprintf(g_log, "BAD-SCENARIO %s\n", name);
+    }
+    A("close", ncmpi_close(ncid));
+    if (info != MPI_INFO_NULL) MPI_Info_free(&info);
+    return 1;
+}
+
 static void scenario(const char *name, const char *path)
 {
     int rc, ncid, fix, recv, sca, i, reqs[4], v2;
     MPI_Offset start[2], count[2];
     MPI_Info info = MPI_INFO_NULL;
     for (i = 0; i < 4 * NX * 4; i++) g_buf[i] = 1000 * g_rank + i;
+    if (scenario2(name, path)) return;
+    if (scenario3(name, path)) return;
 
     if (!strcmp(name, "create_enddef")) {
         create(path, &ncid, info); def_schema(ncid, &fix, &recv, &sca, 0);
